@@ -3,10 +3,11 @@ import itertools
 
 PROP = "C20"
 GEN = ["KeyCheck", "CallSites"]
-VO = ["Properties/C20.vo", "Extract/D_C20.vo"]
+VO = ["Properties/C20.vo", "Extract/D_C20.vo", "Extract/O_C20.vo"]
 MODULE = "Properties.C20"
 THEOREMS = ["c20_exact", "c20_legal_meaning", "c20_accept_iff", "c20_unencodable_rejected", "c20_same_rule"]
-DRIVER = "C20"
+DRIVER = "D_C20"
+ORACLE = "O_C20"
 TECHNIQUE = ("Coq proof that the Gallina translation of check_key_helper (regenerated every run) equals the documented "
              "legal-key predicate for every str/bytes key, prefix and flag; call-site table extracted from source; "
              "extracted-model/implementation differential run over byte classes")
@@ -112,7 +113,7 @@ def search(ctx):
     from pymemcache.client.hash import HashClient
     from harness.core import exn_name
     cs = cases(ctx)
-    spec = ctx.driver.call_many([(2, c) for c in cs]) if ctx.driver else []
+    spec = ctx.oracle.call_many([(2, c) for c in cs])
     found = []
     objs = {}
     n_cls = 0
